@@ -36,6 +36,20 @@ func analyseDeterminism(as AnalysisSpec, progs []*Program, cs *Contracts, funcs 
 			forbidden[f] = true
 		}
 	}
+	// environment packages: every static call into one of them is forbidden unless it is listed as
+	// harmless (deterministic and independent of the machine, the process and the state of the file
+	// system) or allowed at that site
+	envPkgs, harmless := map[string]bool{}, map[string]bool{}
+	for _, f := range strings.Split(as.Args["environment_packages"], ",") {
+		if f = strings.TrimSpace(f); f != "" {
+			envPkgs[f] = true
+		}
+	}
+	for _, f := range strings.Split(as.Args["harmless_calls"], ",") {
+		if f = strings.TrimSpace(f); f != "" {
+			harmless[f] = true
+		}
+	}
 	allowedReaders := map[string]map[string]bool{} // location -> functions
 	for _, item := range as.List {
 		parts := strings.SplitN(item, ":", 2)
@@ -87,8 +101,24 @@ func analyseDeterminism(as AnalysisSpec, progs []*Program, cs *Contracts, funcs 
 							if sc.Pkg != nil && strings.HasPrefix(sc.Pkg.Pkg.Path(), p.ModPrefix) {
 								name = p.FuncKey(sc)
 							}
-							if (forbidden[name] || (sc.Pkg != nil && forbidden[sc.Pkg.Pkg.Path()+".*"])) && !allowedForbidden(as.Args["allow_forbidden"], name, key) {
-								det.Result, det.Why = "failed", "call to "+name+" at "+p.Pos(x.Pos())+" in "+key
+							isForbidden := forbidden[name] || (sc.Pkg != nil && forbidden[sc.Pkg.Pkg.Path()+".*"])
+							if !isForbidden && sc.Pkg != nil && envPkgs[sc.Pkg.Pkg.Path()] && !harmless[name] && !(strings.HasPrefix(sc.Pkg.Pkg.Path(), p.ModPrefix)) {
+								isForbidden = true
+								// "time.Duration.*": every method of that type
+								if i := strings.LastIndex(name, "."); i > 0 && harmless[name[:i]+".*"] {
+									isForbidden = false
+								}
+							}
+							if isForbidden && !allowedForbidden(as.Args["allow_forbidden"], name, key) {
+								why := "call to " + name + " at " + p.Pos(x.Pos()) + " in " + key
+								if det.Result == "failed" && strings.HasPrefix(det.Why, "call to ") {
+									if strings.Contains(det.Why, "call to "+name+" at ") || len(det.Why) > 3000 {
+										why = det.Why // one site per callee is enough
+									} else {
+										why = det.Why + "; " + why
+									}
+								}
+								det.Result, det.Why = "failed", why
 							}
 							if name == "os.OpenFile" && len(x.Call.Args) >= 2 {
 								// an output file must not keep bytes from an earlier run: opened truncating,
